@@ -418,6 +418,75 @@ func runC12(c *Ctx) {
 				}
 			}
 		}
+		// combos elsewhere in the document get the same lookup: a document-level
+		// discount or charge, also one that amounts to nothing, while the line has no tax
+		if p.ValueDateMode == "issue" && (rate.Exempt || len(rate.Values) > 0) {
+			for vi, variant := range []struct {
+				kind string
+				row  map[string]any
+			}{
+				{"discounts", map[string]any{"amount": "0.00", "reason": "none"}},
+				{"discounts", map[string]any{"percent": "0%", "reason": "none"}},
+				{"charges", map[string]any{"amount": "0.00", "reason": "none"}},
+				{"discounts", map[string]any{"amount": "5.00", "reason": "some"}},
+				{"charges", map[string]any{"percent": "10%", "reason": "some"}},
+			} {
+				cb := map[string]any{"cat": p.Cat, "rate": p.Rate}
+				if len(p.Ext) > 0 {
+					cb["ext"] = p.Ext
+				}
+				if vi%2 == 0 {
+					cb["percent"] = "99.9%" // a figure left over from somewhere
+				}
+				row := map[string]any{"taxes": []any{cb}}
+				for k, v := range variant.row {
+					row[k] = v
+				}
+				inv := map[string]any{
+					"$schema": "https://gobl.org/draft-0/bill/invoice", "$regime": p.Regime, "code": "T-4", "issue_date": p.Date, "currency": reg.Currency,
+					"supplier": map[string]any{"name": "Supplier", "tax_id": map[string]any{"country": p.Regime}},
+					"customer": map[string]any{"name": "Customer"},
+					"lines":    []any{map[string]any{"quantity": "1", "item": map[string]any{"name": "thing", "price": "100.00"}}},
+					variant.kind: []any{row},
+				}
+				docJSON, _ := json.Marshal(inv)
+				var out []byte
+				var cerr error
+				if pan, _ := Safely(func() {
+					env, err := gx.EnvelopDoc(docJSON)
+					if cerr = err; err == nil {
+						out, cerr = json.Marshal(env)
+					}
+				}); pan != nil {
+					continue
+				}
+				c.R.Count("path_invoice_document_level_rows", 1)
+				g1, g2, found := "", "", false
+				if cerr == nil {
+					var e struct {
+						Doc map[string]json.RawMessage `json:"doc"`
+					}
+					var rows []struct {
+						Taxes []struct {
+							Percent   string `json:"percent"`
+							Surcharge string `json:"surcharge"`
+						} `json:"taxes"`
+					}
+					if json.Unmarshal(out, &e) == nil && json.Unmarshal(e.Doc[variant.kind], &rows) == nil && len(rows) == 1 && len(rows[0].Taxes) == 1 {
+						g1, g2, found = rows[0].Taxes[0].Percent, rows[0].Taxes[0].Surcharge, true
+					}
+				}
+				if cerr == nil && !found {
+					continue // (the row was dropped: nothing presented to judge)
+				}
+				if (cerr != nil) != wantErr || (cerr == nil && (!pctEq(g1, wantPct) || !pctEq(g2, wantSur))) {
+					c.R.Fail(fmt.Sprintf("%s:%s:%s:%s:invoice:document-level-row", cls, p.Regime, p.Cat, p.Rate),
+						fmt.Sprintf("invoice %s issue=%s %s[0] %v with tax %s/%s got percent=%q surcharge=%q err=%v; table value in force is %q/%q (error expected=%v)", p.Regime, p.Date, variant.kind, variant.row, p.Cat, p.Rate, g1, g2, cerr, wantPct, wantSur, wantErr),
+						map[string]any{"point": p, "doc": json.RawMessage(docJSON)})
+					break
+				}
+			}
+		}
 		// which table a key resolves to: an extended key without a table of its own
 		// takes the value of its component; a key that merely ends in the name of a
 		// defined one (not separated by '+') belongs to no table and is refused
